@@ -46,7 +46,7 @@ func (s *Status) UnmarshalText(b []byte) error {
 	if len(parts) != 3 {
 		return fmt.Errorf("webdav: invalid HTTP status %q: expected 3 fields", s)
 	}
-	if !strings.HasPrefix(parts[0], "HTTP/") {
+	if major, minor, ok := http.ParseHTTPVersion(parts[0]); !ok || major < 0 || minor < 0 {
 		return fmt.Errorf("webdav: invalid HTTP status %q: expected an HTTP version", s)
 	}
 	// strconv.Atoi also accepts a sign
